@@ -8,7 +8,8 @@ EXTRA = {'C13-3': ['C12'], 'C05-4': ['C03']}      # also caught by these checks 
 
 
 def run(seed, prop):
-    p = subprocess.run([os.path.join(HERE, 'tools', 'mutcheck.sh'), os.path.join(SEEDED, seed, 'patch.diff'), prop],
+    pf = os.path.join(SEEDED, seed, 'patch_head.diff')
+    p = subprocess.run([os.path.join(HERE, 'tools', 'mutcheck.sh'), pf if os.path.exists(pf) else os.path.join(SEEDED, seed, 'patch.diff'), prop],
                        capture_output=True, text=True, timeout=3600)
     out = p.stdout
     viol = re.findall(r"VIOLATION property=\S+ replay=\S+( no-failing-input-found)?\n\s+obligation: (.*)", out)
